@@ -42,14 +42,23 @@ class Falsy:
         return 0
 
 
+class Unprintable:
+    """An item that cannot be printed."""
+
+    def __repr__(self) -> str:
+        raise RuntimeError("no repr() for this item")
+
+    __str__ = __repr__
+
+
 # what a queue may legitimately carry: kind 0 is a serial number; the others are values that code tends to mistake for "no item"
-ITEM_KINDS = ["serial", "None", "zero", "False", "empty-str", "empty-tuple", "fresh-list", "falsy-object", "exception", "ellipsis"]
+ITEM_KINDS = ["serial", "None", "zero", "False", "empty-str", "empty-tuple", "fresh-list", "falsy-object", "exception", "ellipsis", "unprintable"]
 
 
 def make_item(kind: int, serial: int) -> Any:
     name = ITEM_KINDS[kind % len(ITEM_KINDS)]
     return {"serial": serial + 1, "None": None, "zero": 0, "False": False, "empty-str": "", "empty-tuple": (), "fresh-list": [],
-            "falsy-object": Falsy(), "exception": BodyError(), "ellipsis": ...}[name]
+            "falsy-object": Falsy(), "exception": BodyError(), "ellipsis": ..., "unprintable": Unprintable()}[name]
 
 
 def decode(data: bytes) -> dict:
@@ -159,7 +168,7 @@ class QRun:
                             async with self.q2 as got:
                                 try:
                                     if got is not tok:
-                                        self.fail("item/second-queue-handed-out-something-else", repr(got))
+                                        self.fail("item/second-queue-handed-out-something-else", type(got).__name__)
                                     rec["state"] = "inbody"
                                     for step in spec["body"]:
                                         if step[0] == "wait":
